@@ -199,6 +199,33 @@ def meta_key(doc, metadata):
     return ("meta", doc or "", tuple(sorted((metadata or {}).items())))
 
 
+MULTI_DEVICE_IR_VERSION = 11      # serde._MULTI_DEVICE_SUPPORTED_VERSION: below it to_proto drops device configurations
+
+
+def _sdim_key(d):
+    return ("i", int(d)) if isinstance(d, int) else ("s", d.value)
+
+
+def node_devcfg_key(cfgs):
+    """Canonical key of Node.device_configurations (IR-level objects).  Values and model configurations are
+    referred to by NAME (tokens cannot carry identities); pipeline stage None and 0 are distinct."""
+    out = []
+    for c in cfgs:
+        specs = []
+        for sp in c.sharding_specs:
+            specs.append((None if sp.value is None else sp.value.name, tuple(sp.device),
+                          tuple((e.key, tuple(e.value)) for e in sp.index_to_device_group_map),
+                          tuple((d.axis, tuple((_sdim_key(x.dim), x.num_shards) for x in d.simple_shardings))
+                                for d in sp.sharded_dims)))
+        out.append((None if c.configuration is None else c.configuration.name,
+                    None if c.pipeline_stage is None else ("stage", int(c.pipeline_stage)), tuple(specs)))
+    return tuple(out)
+
+
+def model_devcfg_key(cfgs):
+    return tuple((c.name, c.num_devices, tuple(c.device_names)) for c in cfgs)
+
+
 def normalize_domain(d):
     return "" if d == "ai.onnx" else d
 
@@ -234,6 +261,7 @@ class ProtoConv:
     def __init__(self, it: Interner):
         self.it = it
         self.unmodelled: list[str] = []
+        self.ir_version = None        # set by model(): device configurations are part of the tokens from IR 11 on
 
     # leaves
     def vinfo(self, p) -> str:
@@ -293,12 +321,25 @@ class ProtoConv:
         return f"(APlain {k} {cNtok(self.it.tok(attr_key(a)))} false {common.cbool(attr_ser_bad(a))})"
 
     def node(self, p) -> str:
-        if len(getattr(p, "device_configurations", ())):
-            self.unmodelled.append("node.device_configurations")
         op = self.it.tok(("op", normalize_domain(p.domain), p.op_type, getattr(p, "overload", "")))
         from onnx_ir import serde
-        ntok = self.it.tok(meta_key(p.doc_string if p.HasField("doc_string") else None,
-                                    serde.deserialize_metadata_props(p.metadata_props)))
+        mk = meta_key(p.doc_string if p.HasField("doc_string") else None,
+                      serde.deserialize_metadata_props(p.metadata_props))
+        if len(getattr(p, "device_configurations", ())):
+            if self.ir_version is not None and self.ir_version < MULTI_DEVICE_IR_VERSION:
+                # read by from_proto but never written back by to_proto below IR 11: left out of the model
+                self.unmodelled.append("node.device_configurations below IR 11")
+            else:
+                if any(not d.configuration_id or any(not sp.tensor_name for sp in d.sharding_spec)
+                       for d in p.device_configurations):
+                    # the leaf serializer rejects a configuration without id / a spec without tensor (not modelled)
+                    self.unmodelled.append("node.device_configurations without configuration_id / tensor_name")
+                try:
+                    mk = ("meta+dev", mk, node_devcfg_key(
+                        [serde.deserialize_node_device_configuration(d) for d in p.device_configurations]))
+                except Exception:  # noqa: BLE001
+                    self.unmodelled.append("node.device_configurations (leaf deserialization failed)")
+        ntok = self.it.tok(mk)
         attrs = "ANil"
         for a in reversed(p.attribute):
             attrs = f"(ACons {self.attr(a)} {attrs})"
@@ -352,14 +393,19 @@ class ProtoConv:
         from onnx_ir import serde
         if len(p.functions) and p.ir_version < 10:
             self.unmodelled.append("function value_info in the IR<10 experimental format")
-        if len(getattr(p, "configuration", ())):
-            self.unmodelled.append("model.configuration")
+        self.ir_version = p.ir_version
         if has_nonstr(p):
             self.unmodelled.append("string field holding invalid UTF-8 (bytes)")
-        mtok = self.it.tok(model_header_key(
+        mkey = model_header_key(
             p.ir_version, {o.domain: o.version for o in p.opset_import},
             p.producer_name, p.producer_version, p.domain, p.model_version, p.doc_string,
-            serde.deserialize_metadata_props(p.metadata_props)))
+            serde.deserialize_metadata_props(p.metadata_props))
+        if len(getattr(p, "configuration", ())):
+            if p.ir_version < MULTI_DEVICE_IR_VERSION:
+                self.unmodelled.append("model.configuration below IR 11")
+            else:
+                mkey = ("m+dev", mkey, model_devcfg_key([serde.deserialize_model_configuration(c) for c in p.configuration]))
+        mtok = self.it.tok(mkey)
         return f"(mkMP {cNtok(mtok)} {self.graph(p.graph)} {clist(self.function(f) for f in p.functions)})"
 
 
@@ -442,8 +488,12 @@ def _name_tok(it, s):
     return -1 if s is None else it.tok(s)
 
 
-def node_tok(it, n):
-    return it.tok(meta_key(n.doc_string, n._metadata_props))  # noqa: SLF001
+def node_tok(it, n, ir_version=None):
+    """doc + metadata (+ the node's device configurations when the model's IR version carries them)."""
+    mk = meta_key(n.doc_string, n._metadata_props)  # noqa: SLF001
+    if n.device_configurations and (ir_version is None or ir_version >= MULTI_DEVICE_IR_VERSION):
+        mk = ("meta+dev", mk, node_devcfg_key(n.device_configurations))
+    return it.tok(mk)
 
 
 def node_op_tok(it, n):
@@ -469,8 +519,11 @@ def function_tok(it, f):
 
 
 def model_tok(it, m):
-    return it.tok(model_header_key(m.ir_version, m.graph.opset_imports, m.producer_name, m.producer_version,
-                                   m.domain, m.model_version, m.doc_string, m._metadata_props))  # noqa: SLF001
+    mkey = model_header_key(m.ir_version, m.graph.opset_imports, m.producer_name, m.producer_version,
+                            m.domain, m.model_version, m.doc_string, m._metadata_props)  # noqa: SLF001
+    if m.device_configurations and m.ir_version >= MULTI_DEVICE_IR_VERSION:
+        mkey = ("m+dev", mkey, model_devcfg_key(m.device_configurations))
+    return it.tok(mkey)
 
 
 def ir_obs(model, it: Interner, tensor_key_fn=tensor_key) -> str:
@@ -501,7 +554,7 @@ def ir_obs(model, it: Interner, tensor_key_fn=tensor_key) -> str:
             else:
                 attrs.append(_t([_z(it.tok(k)), _z(2), _t(_z(w.lg(g)) for g in x)]))
         nodes.append(_t([
-            _z(_name_tok(it, n.name)), _z(node_op_tok(it, n)), _z(node_tok(it, n)),
+            _z(_name_tok(it, n.name)), _z(node_op_tok(it, n)), _z(node_tok(it, n, model.ir_version)),
             _t(_z(w.lv(v)) for v in n.inputs), _t(_z(w.lv(v)) for v in n.outputs), _t(attrs), _z(w.lg(n.graph))]))
     graphs = []
     for g in w.graphs:
@@ -571,7 +624,7 @@ def ir_heap(model, it: Interner, tensor_key_fn=tensor_key) -> tuple[str, str, IR
         if n.graph is not None and w.lg(n.graph) < 0:
             raise Unmodelled("node owned by a graph outside the model")
         nodes.append("(mkN {} {} {} {} {} {} {})".format(
-            copt_name(it, n.name), cNtok(node_op_tok(it, n)), cNtok(node_tok(it, n)),
+            copt_name(it, n.name), cNtok(node_op_tok(it, n)), cNtok(node_tok(it, n, model.ir_version)),
             clist(copt_nat(w.lv(v)) if v is not None else "None" for v in n.inputs),
             clist(f"{w.lv(v)}%nat" for v in n.outputs), clist(attrs), copt_nat(w.lg(n.graph))))
     graphs = []
@@ -747,6 +800,7 @@ class Env:
 
     def __init__(self):
         self.v, self.n, self.g, self.t, self.f = {}, {}, {}, {}, {}
+        self.c: dict = {}             # ModelConfiguration objects (multi-device, IR version 11)
         self.model = None
         self.log: list = []           # (op kind, status)
 
@@ -773,6 +827,11 @@ class Env:
         if h not in self.t:
             raise _Missing(h)
         return self.t[h]
+
+    def C(self, h):
+        if h not in self.c:
+            raise _Missing(h)
+        return self.c[h]
 
 
 def mk_type(spec):
@@ -871,6 +930,26 @@ def _present(d, hs):
     return [d[h] for h in hs if h in d]
 
 
+def mk_node_devcfgs(env: Env, cfgs) -> tuple:
+    """Explicit NodeDeviceConfiguration objects (public dataclasses) from a spec list."""
+    import onnx_ir as ir
+    out = []
+    for c in cfgs:
+        specs = []
+        for sp in c.get("specs", []):
+            dims = tuple(ir.ShardedDim(axis=d["axis"], simple_shardings=tuple(
+                ir.SimpleShardedDim(dim=(x["dim"] if isinstance(x["dim"], int) else ir.SymbolicDim(x["dim"])),
+                                    num_shards=x["num"]) for x in d["simple"])) for d in sp.get("dims", []))
+            specs.append(ir.ShardingSpec(
+                value=env.V(sp["v"]), device=tuple(sp.get("device", ())),
+                index_to_device_group_map=tuple(ir.IndexToDeviceGroupMapEntry(key=k, value=tuple(vs))
+                                                for k, vs in sp.get("groups", [])),
+                sharded_dims=dims))
+        out.append(ir.NodeDeviceConfiguration(configuration=env.C(c["c"]), sharding_specs=tuple(specs),
+                                              pipeline_stage=c.get("stage")))
+    return tuple(out)
+
+
 def apply_op(env: Env, op: dict) -> str:
     """Apply one recipe op through the public API.  'ok' | 'skip' (handle missing) | 'reject:<Exc>'."""
     try:
@@ -918,11 +997,17 @@ def _apply(env: Env, op: dict) -> None:
         env.f[op["id"]] = ir.Function(op["domain"], op["name"], op.get("overload", ""), graph=env.G(op["graph"]),
                                       attributes=attrs)
     elif k == "model":
+        cfgs = []
+        for c in op.get("devcfgs", []):           # configurations handed to the constructor
+            env.c[c["id"]] = ir.ModelConfiguration(name=c["name"], num_devices=c["num_devices"],
+                                                   device_names=tuple(c.get("names", ())))
+            cfgs.append(env.c[c["id"]])
         env.model = ir.Model(env.G(op["graph"]), ir_version=op["ir_version"], producer_name=op.get("producer_name"),
                              producer_version=op.get("producer_version"), domain=op.get("domain"),
                              model_version=op.get("model_version"), doc_string=op.get("doc"),
                              functions=_present(env.f, op.get("funcs", [])),
-                             metadata_props=dict(op["meta"]) if op.get("meta") else None)
+                             metadata_props=dict(op["meta"]) if op.get("meta") else None,
+                             device_configurations=tuple(cfgs))
     # ---- edits: node lists
     elif k == "append":
         env.G(op["g"]).append(env.N(op["n"]))
@@ -1012,6 +1097,24 @@ def _apply(env: Env, op: dict) -> None:
         if env.model is None:
             raise _Missing("model")
         env.model.metadata_props[op["key"]] = op["val"]
+    # ---- multi-device (IR version 11)
+    elif k == "devcfg_add":
+        if env.model is None:
+            raise _Missing("model")
+        env.c[op["id"]] = env.model.add_device_configuration(
+            op["name"], num_devices=op.get("num_devices"), device_names=tuple(op.get("names", ())))
+    elif k == "devcfg_remove":
+        if env.model is None:
+            raise _Missing("model")
+        env.model.remove_device_configuration(op["name"] if "name" in op else env.C(op["c"]),
+                                              cascade=bool(op.get("cascade")))
+    elif k == "shard":
+        env.N(op["n"]).shard(env.V(op["v"]), configuration=env.C(op["c"]), axis=op["axis"], num_shards=op["num"],
+                             device_indices=tuple(op.get("devices", ())), pipeline_stage=op.get("stage"))
+    elif k == "set_stage":
+        env.N(op["n"]).set_pipeline_stage(env.C(op["c"]), op["stage"])
+    elif k == "node_devcfg":
+        env.N(op["n"]).device_configurations = mk_node_devcfgs(env, op["cfgs"])
     elif k == "func_set":
         if op["f"] not in env.f:
             raise _Missing(op["f"])
@@ -1024,7 +1127,8 @@ EDIT_OPS = {"append", "extend", "insert_before", "insert_after", "remove", "move
             "resize_inputs", "resize_outputs", "node_set", "node_meta", "attr_add", "attr_pop", "rauw", "rename",
             "set_type", "set_shape", "set_dtype", "set_doc", "set_meta", "set_const", "gin_append", "gout_append",
             "gin_pop", "gout_pop", "gin_insert", "gout_insert", "gin_set", "gout_set", "init_set", "init_register",
-            "init_pop", "graph_set", "graph_meta", "opset", "model_set", "model_meta", "func_set"}
+            "init_pop", "graph_set", "graph_meta", "opset", "model_set", "model_meta", "func_set",
+            "devcfg_add", "devcfg_remove", "shard", "set_stage", "node_devcfg"}
 
 
 def build(recipe: dict):
@@ -1048,7 +1152,7 @@ class Gen:
         self.rng = rng
         self.env = Env()
         self.ops: list = []
-        self.cnt = {"v": 0, "n": 0, "g": 0, "t": 0, "f": 0, "m": 0}
+        self.cnt = {"v": 0, "n": 0, "g": 0, "t": 0, "f": 0, "m": 0, "c": 0}
         self.used: list = []
         self.ginfo: dict = {}         # gid -> {"parent": gid | None, "fn": bool}
         self.hv: dict = {}            # id(Value) -> handle
@@ -1395,7 +1499,63 @@ class Gen:
             op["doc"] = "mdoc"
         if r.random() < 0.15:
             op["meta"] = {"mk": "mv", "b": "2"}
+        # multi-device configurations: carried by the format from IR version 11 (dropped with a warning below)
+        want_dev = r.random() < (0.5 if self.ir_version >= 11 else 0.15 if self.ir_version == 10 else 0.0)
+        if want_dev and r.random() < 0.4:
+            op["devcfgs"] = [self.devcfg_fields()]
         self.emit(op)
+        if want_dev:
+            for _ in range(r.choice([1, 1, 2]) - len(op.get("devcfgs", []))):
+                self.emit(dict(self.devcfg_fields(), op="devcfg_add"))
+            for _ in range(r.randrange(1, 6)):
+                self.gen_shard()
+
+    # ---- multi-device
+    def devcfg_fields(self) -> dict:
+        r = self.rng
+        cid = self.h("c")
+        nd = r.choice([1, 2, 2, 3])
+        names = [["CPU", "GPU:0", "GPU:1"][i] for i in range(nd)] if r.random() < 0.6 else []
+        return {"id": cid, "name": f"cfg{self.cnt['c']}", "num_devices": nd, "names": names}
+
+    def live_cfgs(self) -> list:
+        m = self.env.model
+        return [h for h, c in sorted(self.env.c.items()) if any(c is x for x in m.device_configurations)]
+
+    def member_nodes(self) -> list:
+        return [self.hn[id(n)] for gid in sorted(self.env.g) for n in self.env.g[gid] if id(n) in self.hn]
+
+    def gen_shard(self) -> None:
+        """One valid node-level annotation: pipeline stage (0 included), a sharding through Node.shard, or an
+        explicit NodeDeviceConfiguration (device groups, symbolic / fused sharded dims)."""
+        r = self.rng
+        cfgs, nodes = self.live_cfgs(), self.member_nodes()
+        if not cfgs or not nodes:
+            return
+        c, n = r.choice(cfgs), r.choice(nodes)
+        node, nd = self.env.n[n], self.env.c[c].num_devices
+        io = [v for v in list(node.inputs) + list(node.outputs)
+              if v is not None and v.name and id(v) in self.hv and (v.shape is None or len(v.shape) > 0)]
+        stage = r.choice([None, None, 0, 0, 1, 2])
+        q = r.random()
+        if q < 0.3 or not io:
+            self.emit({"op": "set_stage", "n": n, "c": c, "stage": r.choice([0, 0, 1, 2])})
+            return
+        v = r.choice(io)
+        rank = len(v.shape) if v.shape is not None else None
+        axis = r.randrange(-rank, rank) if rank else r.choice([0, 1, -1])
+        if q < 0.8:
+            self.emit({"op": "shard", "n": n, "v": self.hv[id(v)], "c": c, "axis": axis, "num": r.choice([1, 2, 2, 4]),
+                       "devices": sorted(r.sample(range(nd), r.randrange(0, nd + 1))), "stage": stage})
+        else:
+            simple = [{"dim": r.choice([8, 6, "B", None]), "num": r.choice([1, 2])}]
+            if r.random() < 0.3:
+                simple.append({"dim": r.choice([4, None]), "num": 2})
+            spec = {"v": self.hv[id(v)], "device": [-1, r.randrange(nd)] if r.random() < 0.5 else [r.randrange(nd)],
+                    "groups": [], "dims": [{"axis": axis, "simple": simple}]}
+            if -1 in spec["device"]:
+                spec["groups"] = [[-1, sorted(r.sample(range(nd), r.randrange(1, nd + 1)))]]
+            self.emit({"op": "node_devcfg", "n": n, "cfgs": [{"c": c, "stage": stage, "specs": [spec]}]})
 
     # ---- edit history
     def pick_graph(self):
@@ -1414,7 +1574,8 @@ class Gen:
                  ("gin_pop", 1), ("gin_insert", 1), ("gin_set", 1), ("gout_append", 3), ("gout_pop", 2), ("gout_set", 2),
                  ("gout_insert", 1), ("init_set", 3), ("init_register", 2), ("init_pop", 2), ("set_const", 2),
                  ("node_set", 4), ("node_meta", 1), ("attr_add", 3), ("attr_pop", 1), ("graph_set", 2),
-                 ("graph_meta", 1), ("opset", 1), ("model_set", 1), ("model_meta", 1), ("func_set", 1)]
+                 ("graph_meta", 1), ("opset", 1), ("model_set", 1), ("model_meta", 1), ("func_set", 1),
+                 ("shard", 4), ("devcfg_remove", 1), ("devcfg_add", 1), ("replace_sharded_input", 2)]
         k = r.choices([x for x, _ in kinds], [w for _, w in kinds])[0]
         gid = self.pick_graph()
         g = self.env.g[gid]
@@ -1572,6 +1733,23 @@ class Gen:
             self.emit({"op": "model_set", "field": field, "val": val})
         elif k == "model_meta":
             self.emit({"op": "model_meta", "key": "mk2", "val": "mv2"})
+        elif k == "shard":
+            self.gen_shard()
+        elif k == "devcfg_add" and (self.env.c or wild) and self.env.model.ir_version >= 10:
+            self.emit(dict(self.devcfg_fields(), op="devcfg_add"))
+        elif k == "devcfg_remove" and self.live_cfgs():
+            c = r.choice(self.live_cfgs())
+            op = {"op": "devcfg_remove", "cascade": r.random() < 0.8}
+            op.update({"name": self.env.c[c].name} if r.random() < 0.5 else {"c": c})
+            self.emit(op)
+        elif k == "replace_sharded_input":
+            c = [(n, i) for n in self.member_nodes() for i, v in enumerate(self.env.n[n].inputs)
+                 if v is not None and self.env.n[n].sharding_of(v)]
+            if c:
+                n, i = r.choice(c)
+                gids = [g for g in sorted(self.env.g) if self.env.n[n].graph is self.env.g[g]]
+                pool = self.usable(self.scope_values(gids[0])) if gids else []
+                self.emit({"op": "replace_input", "n": n, "i": i, "v": r.choice(pool) if pool and r.random() < 0.8 else None})
         elif k == "func_set" and self.funcs:
             f = r.choice(self.funcs)[0]
             field = r.choice(["name", "doc_string", "overload"] if self.env.model.ir_version >= 10 else ["name", "doc_string"])
@@ -1775,6 +1953,18 @@ class Reach:
             self._value(v)
 
 
+def _devcfg_facts(cfgs) -> tuple:
+    """Node.device_configurations as facts (objects by id)."""
+    out = []
+    for c in cfgs:
+        specs = tuple((None if sp.value is None else id(sp.value), tuple(sp.device),
+                       tuple((e.key, tuple(e.value)) for e in sp.index_to_device_group_map),
+                       tuple((d.axis, tuple((repr(x.dim), x.num_shards) for x in d.simple_shardings))
+                             for d in sp.sharded_dims)) for sp in c.sharding_specs)
+        out.append((id(c), None if c.configuration is None else id(c.configuration), c.pipeline_stage, specs))
+    return tuple(out)
+
+
 def _attr_facts(a):
     import onnx_ir as ir
     T = ir.AttributeType
@@ -1816,7 +2006,7 @@ def snapshot(model) -> dict:
             "inputs": tuple(None if v is None else id(v) for v in n.inputs), "outputs": tuple(id(v) for v in n.outputs),
             "attrs": tuple((k, _attr_facts(a)) for k, a in n.attributes.items()), "doc": n.doc_string,
             "meta": dict(n.metadata_props), "graph": None if n.graph is None else id(n.graph),
-            "devices": repr(n.device_configurations)}
+            "devices": _devcfg_facts(n.device_configurations)}
     for i, g in R.graphs.items():
         s[("g", i)] = {
             "name": g.name, "doc": g.doc_string, "opsets": tuple(g.opset_imports.items()), "meta": dict(g.metadata_props),
@@ -1832,7 +2022,7 @@ def snapshot(model) -> dict:
     s[("m", 0)] = {"ir_version": m.ir_version, "producer_name": m.producer_name, "producer_version": m.producer_version,
                    "domain": m.domain, "model_version": m.model_version, "doc": m.doc_string, "meta": dict(m.metadata_props),
                    "functions": tuple((k, id(f)) for k, f in m.functions.items()), "graph": id(m.graph),
-                   "opsets": tuple(m.opset_imports.items()), "devices": repr(m.device_configurations)}
+                   "opsets": tuple(m.opset_imports.items()), "devices": tuple((id(c), c.name, c.num_devices, tuple(c.device_names)) for c in m.device_configurations)}
     return s
 
 
@@ -1900,6 +2090,10 @@ def _same_type(a, b) -> bool:
     return _same_type(a.elem_type, b.elem_type)
 
 
+def _dim_fact(d):
+    return d if isinstance(d, int) else ("sym", d.value)        # SymbolicDim(None) is not the int 0
+
+
 def _dims(s):
     return tuple((d if isinstance(d, int) else ("sym", d.value), s.get_denotation(i) or None) for i, d in enumerate(s.dims))
 
@@ -1963,6 +2157,9 @@ class IsoCheck:
         self.vm, self.nm, self.gm = {}, {}, {}          # id(obj1) -> obj2
         self.rv, self.rn, self.rg = {}, {}, {}          # id(obj2) -> obj1
         self.vpairs, self.fn_graphs = [], set()
+        self.cm: dict = {}                              # id(ModelConfiguration of m1) -> that of m2
+        self.npairs: list = []
+        self.multi_device = m1.ir_version >= MULTI_DEVICE_IR_VERSION
         self.model(m1, m2)
         self.links()
 
@@ -2095,6 +2292,41 @@ class IsoCheck:
         for i, (x, y) in enumerate(zip(oa, ob)):
             self.value(x, y, f"{where}.out[{i}]")
         self.attrs(a.attributes, b.attributes, where)
+        self.npairs.append((a, b, where))
+
+    def device_configurations(self, a, b, where):
+        """Node-level multi-device data (through the finished bijection): the configuration must be the model
+        configuration object corresponding to the original one, pipeline stage None is not stage 0, sharding
+        specs refer to the corresponding values."""
+        ca, cb = tuple(a.device_configurations), tuple(b.device_configurations)
+        if not self.multi_device:
+            # below IR 11 device configurations are not part of the round trip (the serializer drops those of the
+            # nodes it reaches with the model's IR version, with a warning; nodes of subgraphs keep theirs because
+            # serialize_attribute_into does not pass the IR version down: observed, no claim either way)
+            return
+        if len(ca) != len(cb):
+            self.err("device", f"{where}: {len(ca)} node device configurations vs {len(cb)}")
+        for x, y in zip(ca, cb):
+            w = f"{where}@{getattr(x.configuration, 'name', None)}"
+            if x.configuration is None or y.configuration is None or self.cm.get(id(x.configuration)) is not y.configuration:
+                self.err("device", f"{w}: configuration {x.configuration!r} vs {y.configuration!r} (not the corresponding model configuration)")
+            if (x.pipeline_stage is None) != (y.pipeline_stage is None) or x.pipeline_stage != y.pipeline_stage:
+                self.err("device-stage", f"{w}: pipeline stage {x.pipeline_stage!r} vs {y.pipeline_stage!r}")
+            if len(x.sharding_specs) != len(y.sharding_specs):
+                self.err("device-spec", f"{w}: {len(x.sharding_specs)} sharding specs vs {len(y.sharding_specs)}")
+            for sx, sy in zip(x.sharding_specs, y.sharding_specs):
+                if sx.value is None or self.vm.get(id(sx.value)) is not sy.value:
+                    self.err("device-spec", f"{w}: sharded value {getattr(sx.value, 'name', None)!r} vs {getattr(sy.value, 'name', None)!r} (not the corresponding value)")
+                if tuple(sx.device) != tuple(sy.device):
+                    self.err("device-spec", f"{w}: devices {sx.device} vs {sy.device}")
+                gx = tuple((e.key, tuple(e.value)) for e in sx.index_to_device_group_map)
+                gy = tuple((e.key, tuple(e.value)) for e in sy.index_to_device_group_map)
+                if gx != gy:
+                    self.err("device-spec", f"{w}: device groups {gx} vs {gy}")
+                dx = tuple((d.axis, tuple((_dim_fact(q.dim), q.num_shards) for q in d.simple_shardings)) for d in sx.sharded_dims)
+                dy = tuple((d.axis, tuple((_dim_fact(q.dim), q.num_shards) for q in d.simple_shardings)) for d in sy.sharded_dims)
+                if dx != dy:
+                    self.err("device-spec", f"{w}: sharded dims {dx} vs {dy}")
 
     def graph(self, a, b, where, fn=False):
         if not self.bind(self.gm, self.rg, a, b, "graph"):
@@ -2133,6 +2365,15 @@ class IsoCheck:
                          tuple(m.opset_imports.items()))
         if hdr(m1) != hdr(m2):
             self.err("header", f"model header {hdr(m1)} vs {hdr(m2)}")
+        d1, d2 = tuple(m1.device_configurations), tuple(m2.device_configurations)
+        dk = lambda c: (c.name, c.num_devices, tuple(c.device_names))  # noqa: E731
+        if self.multi_device:
+            if [dk(c) for c in d1] != [dk(c) for c in d2]:
+                self.err("device", f"model device configurations {[dk(c) for c in d1]} vs {[dk(c) for c in d2]}")
+            for x, y in zip(d1, d2):
+                self.cm[id(x)] = y
+        elif d2:
+            self.err("device", "model device configurations appear after a round trip below IR 11")
         self.graph(m1.graph, m2.graph, "main")
         f1, f2 = list(m1.functions.values()), list(m2.functions.values())
         if [f.identifier() for f in f1] != [f.identifier() for f in f2]:
@@ -2163,6 +2404,8 @@ class IsoCheck:
             ga, gb = a.graph, b.graph
             if (ga is None) != (gb is None) or (ga is not None and self.gm.get(id(ga)) is not gb):
                 self.err("owner", f"{where}: value {a.name!r} graph {getattr(ga, 'name', None)!r} vs {getattr(gb, 'name', None)!r}")
+        for a, b, where in self.npairs:
+            self.device_configurations(a, b, where)
         for i, b in self.nm.items():
             a = self.rn[id(b)]
             ga, gb = a.graph, b.graph
@@ -2176,6 +2419,30 @@ def _tensor_type(t):
 
 
 # --------------------------------------------------------------------------- the hypothesis, re-stated in Python
+
+def device_conditions(model, R=None) -> list:
+    """What makes the multi-device data of a model (IR >= 11) unserializable or not round-trippable: a node
+    configuration that does not reference a configuration object registered on the model (dangling after
+    remove_device_configuration without cascade, or a same-named imposter), duplicated configuration names, a
+    sharding spec without a named value or on a value that is not an input/output of its node."""
+    R = R or Reach(model)
+    bad = set()
+    regs = list(model.device_configurations)
+    if len({c.name for c in regs}) != len(regs) or any(not c.name for c in regs):
+        bad.add("device-config-names")
+    for i in R.member_nodes:
+        n = R.nodes[i]
+        io = [v for v in list(n.inputs) + list(n.outputs) if v is not None]
+        for c in n.device_configurations:
+            if c.configuration is None or not any(c.configuration is x for x in regs):
+                bad.add("device-dangling-config")
+            for sp in c.sharding_specs:
+                if sp.value is None or not sp.value.name:
+                    bad.add("device-spec-unnamed")
+                elif not any(sp.value is x for x in io):
+                    bad.add("device-spec-foreign")
+    return sorted(bad)
+
 
 BENIGN = {"node-name-none", "init-partial-info", "shared-tensor"}     # conditions only the Gallina statement needs (see C03_LOG)
 
@@ -2274,6 +2541,8 @@ def py_serializable(model) -> list:
             bad.add("use-outside")
         if v.const_value is not None and not v.is_initializer():
             bad.add("const-not-init")
+    if model.ir_version >= MULTI_DEVICE_IR_VERSION:
+        bad |= set(device_conditions(model, R))
     held = [id(v.const_value) for v in R.values.values() if v.const_value is not None]
     if len(set(held)) != len(held):
         bad.add("shared-tensor")
@@ -2284,9 +2553,21 @@ def py_serializable(model) -> list:
 CASE_HEADER_C03 = CASE_HEADER + "From IRV Require Import C03.Inv C03.Iso C03.Tree C03.TreeF.\n"
 
 
+def describe_devices(model) -> str:
+    """Multi-device data (str(model) does not show it)."""
+    lines = [f"device configuration {c.name!r}: num_devices={c.num_devices} names={tuple(c.device_names)}"
+             for c in model.device_configurations]
+    for n in Reach(model).nodes.values():
+        for c in n.device_configurations:
+            lines.append(f"node {n.name!r}: configuration={getattr(c.configuration, 'name', None)!r} "
+                         f"pipeline_stage={c.pipeline_stage!r} specs={node_devcfg_key([c])[0][2]}")
+    return "\n".join(lines)
+
+
 def describe_model(model) -> str:
     try:
-        return str(model)[:3000]
+        d = describe_devices(model)
+        return str(model)[:3000] + ("\n" + d[:1200] if d else "")
     except Exception as e:  # noqa: BLE001
         return f"<unprintable model: {type(e).__name__}>"
 
@@ -2319,6 +2600,10 @@ def run_case(recipe: dict, want_term: bool = True, repair=None) -> dict:
             res["unmodelled"].append(str(e))
         except Exception as e:  # noqa: BLE001
             res["unmodelled"].append(f"converter: {type(e).__name__}: {e}"[:120])
+        if any(c.startswith("device-") for c in conds):
+            # the structural model carries device configurations as opaque tokens: it knows neither that the leaf
+            # serializer rejects a spec without a named value nor what a dangling configuration reads back as
+            res["unmodelled"].append("device configuration outside the hypothesis (dangling / unnamed value)")
     # ---- (a) + (b): snapshots around two serializations
     s0 = snapshot(model)
     q1 = q2 = None
@@ -2563,6 +2848,11 @@ def recipe_features(res: dict) -> dict:
     R = Reach(model)
     return {"edits": edits, "nesting": len(R.graphs) > 1 + len(model.functions), "functions": len(model.functions),
             "tensors": sorted({type(t).__name__ for t in R.tensors.values()}), "values": len(R.values),
+            "devices": [("IR>=11" if model.ir_version >= MULTI_DEVICE_IR_VERSION else "IR<11 (dropped)") + ":" +
+                        ("stage=None" if c.pipeline_stage is None else "stage=0" if c.pipeline_stage == 0 else "stage>0")
+                        + (":sharded" if c.sharding_specs else "")
+                        for n in R.nodes.values() for c in n.device_configurations],
+            "model_devices": len(model.device_configurations),
             "nodes": len(R.nodes), "graphs": len(R.graphs)}
 
 
@@ -2609,6 +2899,10 @@ def run(ck) -> None:
                 ck.hist("edit_ops", k if st == "ok" else f"{k}:{st}")
         for t in ft["tensors"]:
             ck.hist("tensor_kinds", t)
+        for d in ft["devices"]:
+            ck.hist("node_device_configurations", d)
+        if ft["model_devices"]:
+            ck.hist("models_with_device_configurations", "IR>=11" if res["model"].ir_version >= MULTI_DEVICE_IR_VERSION else "IR<11")
         if res.get("iso"):
             for m in res["iso"]:
                 ck.hist("iso_differences(all models)", failure_site(m))
